@@ -322,7 +322,6 @@ def handle : Handler := fun m j =>
         ("vi_wf", Json.bool (inputs.all wfVI && outputs.all wfVI && valueInfo.all wfVI)),
         ("vi_nodup", Json.bool (nodupStr (valueInfo.map (·.name)))),
         ("vi_not_io", Json.bool (valueInfo.all (fun vi => !inputNames.contains vi.name && !outputNames.contains vi.name))),
-        ("vi_init_info", Json.bool (valueInfo.all (fun vi => initNames.contains vi.name → viHasInfo vi))),
         ("out_nodup", Json.bool (nodupStr outputNames)),
         ("out_not_in_init", Json.bool (outputNames.all (fun n => !inputNames.contains n && !initNames.contains n))),
         ("init_wf", Json.bool (initializers.all (fun t => wfTensor t && validDType t.dataType))),
